@@ -33,6 +33,9 @@ def run(ctx):
     ck.assume('stdlib callees raise only what the external-raiser table lists (DESIGN-tables.md H)')
     ck.rule('C11-D1', 'exception types that can leave URLInfo.parse / normalize / urljoin and every documented accessor of '
                       'URLInfo are ValueError or subclasses; none can leave parse_url_or_log and urljoin_safe')
+    ck.rule('C11-D1b', 'every documented accessor can be read on the result for a non-network scheme (mailto:, javascript: ...), whose '
+                       'authority/query/host fields are None: no accessor dereferences such a field, directly or through the helper it '
+                       'hands it to, without a None/truthiness guard')
     ck.rule('C11-D2', 'no function in wpull/url.py calls itself (or a call cycle) on every path to a return')
     ck.rule('C11-D3', 'every caller of the raising variants that handles scraped/redirect data wraps the call in an '
                       '`except ValueError` (or a superclass) handler')
@@ -63,6 +66,9 @@ def run(ctx):
                        it.origin.split(' ')[0])
         if not items:
             ck.ok('C11-D1', q, 'nothing escapes')
+
+    # ------------------------------------------------------------------ D1b
+    _none_field_rule(ctx, ui)
 
     # ------------------------------------------------------------------ D2
     funcs = [f for f in repo.funcs.values() if f.module is mod]
@@ -155,6 +161,115 @@ def run(ctx):
     ck.expect(okp, 'C11-D3', pr.qual, 'parse_url = parse_url_or_log',
               'ProcessingRule.parse_url is not the non-raising parser', pr.module.path)
     ck.info['escape_unknown_externals'] = dict(sorted(esc.unknown_external.items(), key=lambda kv: -kv[1])[:40])
+
+
+def _derefs_param(repo, res, fi, pname, depth=0):
+    """Does fi use its parameter `pname` in a way that fails for None (attribute, subscript, iteration, len, `in`)
+    without a guard - directly or by handing it to another function of the module that does?"""
+    from ..escape import guarded_truthy
+    if depth > 3:
+        return None
+    for n in walk_no_nested(fi.node):
+        hit = None
+        if isinstance(n, ast.Attribute) and isinstance(n.value, ast.Name) and n.value.id == pname and isinstance(n.ctx, ast.Load):
+            hit = n
+        elif isinstance(n, ast.Subscript) and isinstance(n.value, ast.Name) and n.value.id == pname:
+            hit = n
+        elif isinstance(n, (ast.For, ast.comprehension)) and isinstance(n.iter, ast.Name) and n.iter.id == pname:
+            hit = n.iter
+        elif isinstance(n, ast.Compare) and any(isinstance(op, (ast.In, ast.NotIn)) for op in n.ops) and any(
+                isinstance(c, ast.Name) and c.id == pname for c in n.comparators):
+            hit = n
+        elif isinstance(n, ast.Call):
+            if dotted(n.func) == 'len' and n.args and isinstance(n.args[0], ast.Name) and n.args[0].id == pname:
+                hit = n
+            else:
+                for i, a in enumerate(n.args):
+                    if isinstance(a, ast.Name) and a.id == pname:
+                        for g in res.callee_funcs(fi, n, allow_name=False, count=False):
+                            gp = [p for p in g.params if p not in ('self', 'cls')]
+                            if i < len(gp) and not guarded_truthy(fi.node, pname, n):
+                                sub = _derefs_param(repo, res, g, gp[i], depth + 1)
+                                if sub:
+                                    return '%s -> %s' % (norm_text(n)[:50], sub)
+        if hit is not None and not guarded_truthy(fi.node, pname, hit):
+            return '%s in %s [%s]' % (norm_text(hit)[:50], fi.qual.split(':')[-1], fi.loc(hit))
+    return None
+
+
+def _none_field_rule(ctx, ui):
+    repo, ck, res = ctx.repo, ctx.check, ctx.res
+    from ..dtable import Interp, fmt_val
+    parse = repo.func(URL + ':URLInfo.parse')
+    init = repo.func(URL + ':URLInfo.__init__')
+    all_fields = [t.attr for s_ in walk_no_nested(init.node) if isinstance(s_, ast.Assign) for t in s_.targets if U.is_self_attr(t)]
+    # the early return for non-network schemes
+    early = None
+    for i in walk_no_nested(parse.node):
+        if isinstance(i, ast.If) and isinstance(i.test, ast.Compare) and isinstance(i.test.ops[0], ast.NotIn) \
+                and dotted(i.test.comparators[0]) == 'RELATIVE_SCHEME_DEFAULT_PORTS' and i.body and isinstance(i.body[-1], ast.Return):
+            early = i
+    if early is None:
+        ck.ok('C11-D1b', parse.qual, 'no result is produced for non-network schemes', nontrivial=False)
+        return
+    set_there = {t.attr for s_ in early.body if isinstance(s_, ast.Assign) for t in s_.targets
+                 if isinstance(t, ast.Attribute) and isinstance(t.value, ast.Name)}
+    # fields assigned before the branch on every path (e.g. info.encoding)
+    for s_ in parse.node.body:
+        if s_ is early:
+            break
+        if isinstance(s_, ast.Assign):
+            for t in s_.targets:
+                if isinstance(t, ast.Attribute) and isinstance(t.value, ast.Name):
+                    set_there.add(t.attr)
+    none_fields = [f for f in all_fields if f not in set_there and not f.startswith('_')]
+    ck.info['non_network_none_fields'] = none_fields
+    for a in ACCESSORS:
+        m = ui.methods.get(a)
+        if m is None:
+            continue
+        it = Interp(repo, m, rename=False)
+        try:
+            leaves = it.leaves()
+        except Exception:
+            continue
+        bad = None
+        for o in leaves:
+            ok_leaf = True
+            for k, v in o.val.items():
+                if k[0] == 'in' and k[1] == 'self.scheme' and k[2] == 'RELATIVE_SCHEME_DEFAULT_PORTS' and v is True:
+                    ok_leaf = False
+                if k[0] == 'T' and k[1] == 'RELATIVE_SCHEME_DEFAULT_PORTS.get(self.scheme)' and v is True:
+                    ok_leaf = False
+                for f in none_fields + ['_query_map', '_url']:
+                    if k[0] == 'T' and k[1] == 'self.' + f and v is True:
+                        ok_leaf = False
+                    if k[0] == 'is' and k[1] == 'self.' + f and k[2] == 'None' and v is False:
+                        ok_leaf = False
+            if not ok_leaf:
+                continue
+            texts = list(o.effects) + ([norm_text(o.value)] if o.value is not None else [])
+            for t in texts:
+                try:
+                    tree = ast.parse(t)
+                except SyntaxError:
+                    continue
+                for n in ast.walk(tree):
+                    if isinstance(n, (ast.Attribute, ast.Subscript)) and U.is_self_attr(n.value) and n.value.attr in none_fields \
+                            and not (isinstance(n, ast.Attribute) and isinstance(getattr(n, 'ctx', None), ast.Store)):
+                        bad = bad or 'self.%s is None here but `%s` is evaluated [%s]' % (n.value.attr, norm_text(n)[:50], fmt_val(o.val))
+                    if isinstance(n, ast.Call):
+                        for i, arg in enumerate(n.args):
+                            if U.is_self_attr(arg) and arg.attr in none_fields:
+                                for g in res.callee_funcs(m, n, allow_name=False, count=False):
+                                    gp = [p for p in g.params if p not in ('self', 'cls')]
+                                    if i < len(gp):
+                                        why = _derefs_param(repo, res, g, gp[i])
+                                        if why:
+                                            bad = bad or 'self.%s (None for non-network schemes) is passed to %s which evaluates %s' % (
+                                                arg.attr, g.qual.split(':')[-1], why)
+        ck.expect(bad is None, 'C11-D1b', m.qual, 'readable when authority/query fields are None',
+                  'reading this accessor on a parsed non-network URL (e.g. mailto:x) raises AttributeError/TypeError: %s' % bad, m.loc())
 
 
 def _within(root, node):
